@@ -10,6 +10,7 @@ KANI = {
  "c08_raw_sign_matches_rfc8032": dict(function="hazmat::raw_sign::<ModelDigest> + ExpandedSecretKey::from_bytes", bounds="all 2^512 expanded-key bits, all keys; message <= 2 bytes", what="prefix/scalar split + clamp; r = H(prefix||M); R = rB; k = H(R||A||M); S = k*a + r; sig = R||S"),
  "c08_raw_sign_prehashed_matches_rfc8032_dom2": dict(function="hazmat::raw_sign_prehashed::<ModelDigest,ModelDigest>", bounds="all key bits; prehash input and context <= 1 byte, context absent/present", what="dom2(1,ctx) prefix in both hashes, RFC 8032 Ed25519ph"),
  "c08_prehashed_context_length_limit": dict(function="hazmat::raw_sign_prehashed (context length)", bounds="all context lengths 0..=300", what="Err <=> len(ctx) > 255"),
+ "c08_from_keypair_bytes_accepts_exactly_matching_halves": dict(function="SigningKey::from_keypair_bytes", bounds="all 2^512 keypair byte strings", what="Ok <=> public half decodes and is byte-identical to the key derived from the secret half; the returned key holds both halves"),
 }
 def run(tier, seed):
     rep = Report("C08")
